@@ -25,12 +25,42 @@ class Faulty:
 
     def __init__(self, items, mode, at):
         self.items, self.mode, self.at, self.fired = list(items), mode, at, 0
+        self.cb, self.where, self.called = None, None, 0
+
+    def _callback(self):
+        """Re-entrant use: while the library is reading this operand, the operand reads from the very object that is being
+        assigned to (as a data source backed by the same container would). Read-only: the assignment under way is all
+        that may change."""
+        obj = (self.where or {}).get('obj')
+        if self.cb is None or obj is None or self.called >= 2:
+            return
+        self.called += 1
+        try:
+            if self.cb == 'copy':
+                obj.copy()
+            elif self.cb == 'values':
+                obj.values  # noqa: B018
+            elif self.cb == 'frame':
+                obj.to_dataframe()
+            elif self.cb == 'read':
+                d = obj.__dict__
+                for nm in list(d['index'])[:3]:
+                    obj[nm]  # noqa: B018
+                    if len(d['span']):
+                        obj[nm, d['span'][0]]  # noqa: B018
+            elif self.cb == 'eval':
+                obj.eval('1 + 1')
+            elif self.cb == 'reindex':
+                obj.reindex(obj.__dict__['span'])
+        except Exception:
+            pass  # the data source's own try / except
 
     def _boom(self, what):
         self.fired += 1
         raise InjectedSourceError(f'injected: data source failed in {what}')
 
     def __len__(self):
+        self._callback()
         if self.mode == 'len' and self.at is not None:
             self._boom('__len__')
         return len(self.items)
@@ -42,6 +72,8 @@ class Faulty:
             i += len(self.items)
         if not 0 <= i < len(self.items):
             raise IndexError(i)
+        if i == 1 or len(self.items) == 1:
+            self._callback()
         if self.mode in ('getitem', 'seq') and self.at is not None and i == self.at:
             self._boom('__getitem__')
         return self.items[i]
@@ -49,6 +81,7 @@ class Faulty:
 
 class FaultyArray(Faulty):
     def __array__(self, dtype=None, copy=None):
+        self._callback()
         if self.at is not None:
             self._boom('__array__')
         return np.array(self.items, dtype=dtype)
